@@ -4,6 +4,7 @@ mod c01;
 mod c02;
 mod c03;
 mod c04;
+mod c07;
 mod c08;
 mod c10;
 mod c12;
@@ -29,6 +30,8 @@ fn main() {
         ("size", "c05") => c03::size(rest),
         ("replay", "c04") => c04::replay(rest),
         ("record", "c04") => c04::record(rest),
+        ("replay", "c07") => c07::replay(rest),
+        ("topo", "c07") => c07::topo(rest),
         ("replay", "c08") => c08::replay(rest),
         ("replay", "c20") => c20::replay(rest),
         ("replay", "c10") => c10::replay(rest),
